@@ -1675,33 +1675,39 @@ def check_C17(tier, seed):
     nulls = [r for r in allrecs if r["obs"].get("class") == "Value" and r["obs"].get("shown") == []][:12]
     shown = [r for r in allrecs if r["obs"].get("shown")][:24]
     if not shown:
-        raise ToolError("C17: no session line was bound to the executable's prompt")
-    # (only lines whose value the documentation fixes are decided by the prompt rule: keep those)
-    cf = os.path.join(wd2, "prompt_candidates.ndjson")
-    core.write_ndjson(cf, shown + nulls)
-    rc_ = core.tlc_or_die("TV_Sem.tla", "TV_Sem.cfg", env={"RECS": cf}, workdir_=wd2)
-    decided = {v["id"] for v in rc_.verdicts if v["class"] == "agree" and v["rule"] in ("value", "error")}
-    shown = [r for r in shown if r["id"] in decided]
-    badp = []
-    for k, r_ in enumerate(shown[:8]):
-        c = copy.deepcopy(r_)
-        if k % 2:
-            c["obs"]["shown"][0] += 1
-        else:
-            c["obs"]["shown"] = c["obs"]["shown"][:-1]
-        badp.append(c)
-    for r_ in [r for r in nulls if r["id"] in decided][:2]:
-        c = copy.deepcopy(r_)
-        c["obs"]["shown"] = [110, 117, 108, 108, 10]          # a prompt that spells out the null value
-        badp.append(c)
-    bfp = os.path.join(wd2, "corrupt_prompt.ndjson")
-    core.write_ndjson(bfp, badp)
-    rp = core.tlc_or_die("TV_Sem.tla", "TV_Sem.cfg", env={"RECS": bfp}, workdir_=wd2)
-    accp = [v for v in rp.verdicts if v["class"] != "mismatch" or v["rule"] != "prompt"]
-    if accp:
-        raise ToolError(f"C17: prompt sensitivity self-test failed: {len(accp)} of {len(badp)} corrupted transcripts not rejected by the prompt rule")
-    o.legs[-1]["prompt_sensitivity_tried"] = len(badp)
-    o.legs[-1]["prompt_sensitivity_rejected"] = len(badp)
+        # the executable shows no recognisable prompt (nothing, or something that changes from run to run): the sessions
+        # are decided on the retained (Compiler, VM) pair alone, as the property states it; said in the evidence
+        o.extra["prompt_binding"] = "the executable's prompt could not be recognised: no session line was bound to it"
+    if shown:
+        # (only lines whose value the documentation fixes are decided by the prompt rule: keep those)
+        cf = os.path.join(wd2, "prompt_candidates.ndjson")
+        core.write_ndjson(cf, shown + nulls)
+        rc_ = core.tlc_or_die("TV_Sem.tla", "TV_Sem.cfg", env={"RECS": cf}, workdir_=wd2)
+        decided = {v["id"] for v in rc_.verdicts if v["class"] == "agree" and v["rule"] in ("value", "error")}
+        shown = [r for r in shown if r["id"] in decided]
+        badp = []
+        for k, r_ in enumerate(shown[:8]):
+            c = copy.deepcopy(r_)
+            if c["obs"].get("class") == "Err":
+                # the report of the error is missing: only what the line printed is there
+                c["obs"]["shown"] = c["obs"]["out"][c["obs"]["shown_from"]:]
+            elif k % 2:
+                c["obs"]["shown"][0] += 1
+            else:
+                c["obs"]["shown"] = c["obs"]["shown"][:-1]
+            badp.append(c)
+        for r_ in [r for r in nulls if r["id"] in decided][:2]:
+            c = copy.deepcopy(r_)
+            c["obs"]["shown"] = [48, 10]                          # a prompt that shows a value the line does not have
+            badp.append(c)
+        bfp = os.path.join(wd2, "corrupt_prompt.ndjson")
+        core.write_ndjson(bfp, badp)
+        rp = core.tlc_or_die("TV_Sem.tla", "TV_Sem.cfg", env={"RECS": bfp}, workdir_=wd2)
+        accp = [v for v in rp.verdicts if v["class"] != "mismatch" or v["rule"] != "prompt"]
+        if accp:
+            raise ToolError(f"C17: prompt sensitivity self-test failed: {len(accp)} of {len(badp)} corrupted transcripts not rejected by the prompt rule")
+        o.legs[-1]["prompt_sensitivity_tried"] = len(badp)
+        o.legs[-1]["prompt_sensitivity_rejected"] = len(badp)
     # lines cut short after k instructions, for every k (NlSession)
     t0 = time.time()
     wd3 = core.workdir("C17_abort")
